@@ -146,8 +146,7 @@ def check(run):
     for k in (len(cc.corpus(L)) + 3, len(cases) // 2, len(cases) - 1):
         run.sample({"case": cases[k][:200], "model": mo[k][:200], "impl": io[k][:200]})
     report_diffs(run, diffs, "coq/Codec.v", "the codec generated by zvt_derive over zvt_builder", "codec")
-    if any(not v.get("no_failing_input_found") for v in run.violations):
-        run.violations = [v for v in run.violations if not v.get("no_failing_input_found")]
+    vlib.prefer_concrete(run)
     return vlib.finish(run, trusted_base=TB,
                        assumptions=["canonical domain = DESIGN 5.1 as implemented by tools/layouts.py",
                                     "the round-trip theorem covers the (layout, value) pairs of the decidable class `canon` (coverage['values_in_proved_class']); "
